@@ -202,8 +202,8 @@ package loadbalancer
 //@ ghost var hashedKey String
 //@ pred firstOf(s string) string := contains(s, ",") ? split_head(s, ",") : s
 //@ pred clientKey(r *http.Request) string :=
-//@      header_get(ptr(r.Header), "X-Forwarded-For") != "" ? firstOf(header_get(ptr(r.Header), "X-Forwarded-For"))
-//@    : (header_get(ptr(r.Header), "X-Real-IP") != "" ? firstOf(header_get(ptr(r.Header), "X-Real-IP"))
+//@      r.Header.vals["X-Forwarded-For"] != "" ? firstOf(r.Header.vals["X-Forwarded-For"])
+//@    : (r.Header.vals["X-Real-IP"] != "" ? firstOf(r.Header.vals["X-Real-IP"])
 //@    : firstOf(split_ok(r.RemoteAddr) ? split_host(r.RemoteAddr) : r.RemoteAddr))
 
 // ---- ip hash
